@@ -564,16 +564,20 @@ LEVEL_TEXT = ("Proved in Lean 4 about the model that the driver runs against the
               "strings, write never reads outside _lines; (4) ini_order: for any object state the written text contains all original "
               "lines in order, non-entry lines byte for byte, entry lines respelled key=value with the same key, new lines only inserted; "
               "(5) csv_row_roundtrip: for every separator and every non-empty row of strings of any bytes (separators, quotes, blanks, "
-              "empty) and number texts, parseRow(writeRow r) = r cell for cell; (6) csv_number_exact_Q: every number text "
+              "empty) and number texts, parseRow(writeRow r) = r cell for cell; csv_table_roundtrip: for every list of identifier "
+              "column names and every table of such cells (strings without line breaks that do not spell a number, number texts) the "
+              "file written through columns()/operator<< and read by a fresh TabularDataFile (header detection, separator sniffing, "
+              "data() loop, BOM test, type inference) gives back the columns and the rows cell for cell, numbers as myatof of the text "
+              "written; (6) csv_number_exact_Q: every number text "
               "[-]digits[.digits][(e|E)[+|-]digits] is accepted by myisnumber and the rational y1*10^exp computed by myatof before its "
               "floating-point multiplication equals the number spelled. The models are tied to src/IniFile.cpp and "
               "src/TabularDataFile.cpp by the correspondence check (INI histories incl. texts outside the grammar, whole tables through "
               "the real files, arbitrary CSV texts, myatof on every decimal exponent) and by independent python oracles.")
-LEVEL_NOTE = ("Validated by the correspondence check only (no theorem): the table level of TabularDataFile (header line, separator "
-              "sniffing, data() loop over the file, BOM handling, type inference per cell) -- the row-level round trip and the number "
-              "recognition/value theorems are its proved core; the last step of the 15-digit clause (double(y1)*pow(10.0,exp) printed "
-              "with %.15g gives the written digits) is floating point, carried by the listed libc/IEEE assumptions and compared on "
-              "every number of every run (model prints the exact decimal with its own %.15g formatter); IniFile::values(), "
+LEVEL_NOTE = ("Validated by the correspondence check only (no theorem): the last step of the 15-digit clause -- "
+              "double(y1)*pow(10.0,exp) printed with %.15g gives the written digits -- is floating point, carried by the listed libc/IEEE "
+              "assumptions and compared on every number of every run (the model prints the exact decimal with its own %.15g formatter "
+              "fmt15, which has no theorem); Var::toString's %.15g of the double handed in; CSV files not written by TabularDataFile "
+              "(other separators, decimal comma, no header, missing final line end: the last row is then not returned); IniFile::values(), "
               "sectionNames(), plain names without '/', operator[]= and reopen are in the model and in K but the persist theorem is stated "
               "for set(\"section/key\") and const operator[]; keys outside KeyOK (containing '/', '=' or starting below '0') and values with "
               "outer blanks are K-only. Known finding csv-tiny-number (|x| < ~1e-293 read back wrong) is excluded from the generator and "
